@@ -286,6 +286,9 @@ func (g *c02G) gen(t *c02Ty, d int, free bool) *c02Exp {
 	// globals: library and earlier user functions (full or partial application, plain reference)
 	for _, s := range g.sigs {
 		s := s
+		if s.FamOnly {
+			continue
+		}
 		for given := len(s.Args); given >= 0; given-- {
 			given := given
 			pat := s.Res
@@ -508,6 +511,9 @@ func (g *c02G) callLocal(v c02EnvVar, d int) *c02Exp {
 		}
 		args = append(args, x)
 	}
+	if len(args) == 1 && g.rng.Chance(40, 100) {
+		return &c02Exp{K: "pipe", Name: v.Name, Args: args} // x |> f
+	}
 	return &c02Exp{K: "callp", Name: v.Name, Args: args}
 }
 
@@ -528,6 +534,9 @@ func (g *c02G) callGlobal(s *c02Sig, given int, m map[int]*c02Ty, d int) *c02Exp
 			return nil
 		}
 		args = append(args, x)
+	}
+	if given == len(s.Args) && given >= 1 && !s.User && g.rng.Chance(20, 100) {
+		return &c02Exp{K: "pipeg", Name: s.Name, Args: args} // last |> g a b
 	}
 	return &c02Exp{K: "global", Name: s.Name, Args: args}
 }
@@ -888,7 +897,16 @@ func c02RandFunc(rng *Rng, name string, sigs []*c02Sig, hazardKind string) *c02F
 			}
 		}
 	}
-	return &c02Func{Name: name, Params: params, Body: body,
+	var ret *c02Ty
+	if !rt.hasVar() && !rt.hasFun() && rng.Chance(25, 100) {
+		ret = rt // result annotation; parameters determined only through it keep no annotation of their own
+		for i := range params {
+			if params[i].Ann && rng.Bool() {
+				params[i].Ann = false
+			}
+		}
+	}
+	return &c02Func{Name: name, Params: params, Body: body, Ret: ret,
 		Feats: map[string]int{"lambda_param_shadows_outer_name": g.nShadow, "comparison_between_two_parameters": len(g.needDet)}}
 }
 
